@@ -4,7 +4,7 @@
    by differential execution against `garden reftest-eval-up-to`
    (tools/props/C27.py). *)
 From Coq Require Import ZArith NArith Bool List.
-From Garden Require Import Base.Int64 Arith gen.Tables Machine MachineStop MachineStopProps.
+From Garden Require Import Base.Int64 Arith gen.Tables Machine MachineStop MachineStopProps MachineStopWhole.
 Import ListNotations.
 Open Scope nat_scope.
 
@@ -27,7 +27,7 @@ Proof. exact stop_prefix_is_plain. Qed.
 Print Assumptions stop_never_changes_earlier_steps.
 
 (* PARTIAL (fragment: literals, variables, fun literals, operators, let,
-   assignment, update, parentheses, if / if-else, list and tuple literals; the
+   assignment, update, parentheses, if / if-else, match, list and tuple literals; the
    target itself not a parenthesised expression; stated from the step at which
    the target's evaluation begins).
    If the run with target t stops with value v by step n, and at some earlier
@@ -84,3 +84,110 @@ Example paren_target_repaired :
   exists n, eval_up_to true ex_prog ex_exprs (28, 35)%N None None 100 = UValue (VInt 3) n.
 Proof. exact ex_paren_fixed. Qed.
 Print Assumptions paren_target_repaired.
+
+(* ------------------------------------------------------------------------ *)
+(* From the initial state, for ANY program (loops, calls, closures, match,
+   break / continue / return anywhere around the target).                      *)
+
+(* History of continuation entries: in every state reachable from a start whose
+   continuation entries are all NotEvaluated (e.g. init_state), every entry that
+   is not NotEvaluated belongs to an expression whose evaluation BEGAN -- entry
+   (NotEvaluated, e) on top of the current frame -- at an earlier step. *)
+Theorem nonfresh_entries_have_begun : forall p s0,
+  (forall f, In f (stack s0) -> all_fresh (todo f)) ->
+  forall i s, plain_iter p i s0 = Some s -> hist_inv p s0 i s.
+Proof. exact hist_run. Qed.
+Print Assumptions nonfresh_entries_have_begun.
+
+(* The corollary from the initial state.  If eval-up-to's machine, started in
+   init_state, stops with v by step n, then (with stop_never_changes_earlier_steps:
+   the first n-1 steps are the plain run's) EITHER
+   (A) it stopped after an expression: some expression e with the target span
+       began to be evaluated at a step m < n, m being the FIRST step of the run at
+       which an evaluation of an expression with span t begins; and if e is in the
+       fragment of stop_at_first_value_partial, step n is exactly the completion of
+       that first evaluation: continuation back to T, value stack v :: V, stopped
+       state = plain n-th state, work above T pending at every step in between;
+   OR
+   (B) it stopped at the return of a call: the call expression e = f(args) has the
+       target span, the call was made at step m (entry (EvaluatedSubexpressions, e),
+       exec answers XCall), from step m+1 to n-1 the callee's frames stay above the
+       caller's frame f' and the frames below (all untouched), at step n-1 the
+       callee's own frame fb has nothing left to do and v is its value, the
+       stopped state is the caller's stack without the push, and the plain run's
+       n-th step pushes exactly v onto f' (continuation td = what followed the
+       call).  No restriction on the callee's body. *)
+Theorem stop_from_initial_state : forall t p fuel exprs tl sl n v ssf,
+  let ss0 := mkS (init_state exprs tl sl) [] in
+  run_stop t p fuel 0 ss0 = TStopped n v ssf ->
+  (exists m s_m f rest e T,
+     m < n /\ plain_iter p m (base ss0) = Some s_m /\
+     stack s_m = f :: rest /\ todo f = (SNot, e) :: T /\ epos e = t /\
+     (forall m', m' < m -> begins_at t p (base ss0) m' = false) /\
+     (eused e = true -> not_paren e -> frag t e ->
+      exists f',
+        stack (base ssf) = f' :: rest /\ todo f' = T /\ vals f' = v :: vals f /\
+        plain_iter p n (base ss0) = Some (base ssf) /\
+        (forall i, m <= i < n -> exists si, plain_iter p i (base ss0) = Some si /\ above_state T rest si)))
+  \/
+  (exists m sm fm rest e td f' callee fb spre,
+     S m < n /\ iter_stop t p m ss0 = Some sm /\ plain_iter p m (base ss0) = Some (base sm) /\
+     stack (base sm) = fm :: rest /\ todo fm = (SDone, e) :: td /\ epos e = t /\
+     (exists mm fe args, e = ECall mm fe args /\ uses callee = used mm) /\
+     exec p (set_todo fm td) SDone e = XCall f' callee /\ todo f' = td /\
+     (forall j, m < j < n -> exists sj X, plain_iter p j (base ss0) = Some sj /\ stack sj = X ++ f' :: rest /\ X <> []) /\
+     iter_stop t p (n - 1) ss0 = Some spre /\
+     stack (base spre) = fb :: f' :: rest /\ todo fb = [] /\ (exists vs, vals fb = v :: vs) /\
+     stack (base ssf) = f' :: rest /\
+     (exists s_n, plain_iter p n (base ss0) = Some s_n /\ stack s_n = push_val_if (uses fb) f' v :: rest)).
+Proof. exact stop_from_init. Qed.
+Print Assumptions stop_from_initial_state.
+
+(* (B) on its own, from any start with a single frame *)
+Theorem call_target_stops_at_return : forall t p fuel ss0 n v ssf spre,
+  depth ss0 = 1 ->
+  run_stop t p fuel 0 ss0 = TStopped n v ssf ->
+  iter_stop t p (n - 1) ss0 = Some spre -> top_entry (base spre) = None ->
+  exists m sm fm rest e td f' callee fb,
+    S m < n /\ iter_stop t p m ss0 = Some sm /\ plain_iter p m (base ss0) = Some (base sm) /\
+    stack (base sm) = fm :: rest /\ todo fm = (SDone, e) :: td /\ epos e = t /\
+    (exists mm fe args, e = ECall mm fe args /\ uses callee = used mm) /\
+    exec p (set_todo fm td) SDone e = XCall f' callee /\ todo f' = td /\
+    (forall j, m < j < n -> exists sj X, plain_iter p j (base ss0) = Some sj /\ stack sj = X ++ f' :: rest /\ X <> []) /\
+    stack (base spre) = fb :: f' :: rest /\ todo fb = [] /\ (exists vs, vals fb = v :: vs) /\
+    stack (base ssf) = f' :: rest /\
+    (exists s_n, plain_iter p n (base ss0) = Some s_n /\ stack s_n = push_val_if (uses fb) f' v :: rest).
+Proof. exact return_stop_is_call_completion. Qed.
+Print Assumptions call_target_stops_at_return.
+
+(* satisfiable: fun f(x) { x + 1 }  f(2), target the call: stops with 3, the
+   toplevel frame is left without the pushed value *)
+Example call_target_example : exists n ssf,
+  run_stop (19, 23)%N exc_prog 100 0 (mkS (init_state [exc_call] None None) []) = TStopped n (VInt 3) ssf /\
+  stack (base ssf) = [mkFrame [] [vunit] [[]] [] true].
+Proof. exact exc_stops. Qed.
+Print Assumptions call_target_example.
+
+(* A `for` loop as the target (the special case in `eval`): with the iterated
+   expression in the fragment, the machine either fails while evaluating it or
+   stops with Unit right after the step that enters the first iteration (or,
+   for an empty list, ends the loop); in the stopped state the loop variable is
+   bound to the first element, which is what eval_up_to reports. *)
+Theorem for_target_stops_in_first_iteration : forall t p m x it body ss f rest T,
+  frag t it -> eused it = true -> epos it <> t -> epos (EFor m x it body) = t ->
+  stack (base ss) = f :: rest -> todo f = (SNot, EFor m x it body) :: T ->
+  reach t p T rest ss (FinFail t p T rest) \/
+  reach t p T rest ss (fun pre => above T rest pre /\
+    exists f2 itv f3 pr ss',
+      stack (base pre) = f2 :: rest /\ todo f2 = (SPart BWill, EFor m x it body) :: T /\
+      vals f2 = itv :: VInt 0 :: vals f /\
+      exec p (set_todo f2 T) (SPart BWill) (EFor m x it body) = XOk f3 pr /\
+      step_stop t p pre = OStopped vunit ss' /\ stack (base ss') = f3 :: rest /\ callers ss' = callers ss /\
+      (forall elem items, itv = VList (elem :: items) -> N.eqb x underscore = false ->
+         get_var p f3 x = Some elem)).
+Proof. exact MachineStopWhole.for_target_stops_in_first_iteration. Qed.
+Print Assumptions for_target_stops_in_first_iteration.
+
+Example for_target_example : exists n, eval_up_to true ex_prog [exf] (0, 20)%N None None 100 = UValue (VInt 1) n.
+Proof. exact exf_reports. Qed.
+Print Assumptions for_target_example.
